@@ -180,6 +180,9 @@ func (u *Universe) sortOf1(t types.Type, key string) Sort {
 	case *types.Interface:
 		return SIface
 	case *types.TypeParam:
+		if it, ok := tt.Constraint().Underlying().(*types.Interface); ok && it.NumMethods() > 0 {
+			return SIface // a value of a type parameter constrained by methods is used like an interface value
+		}
 		name := "TP_" + mangle(tt.Obj().Name())
 		if !u.sortSeen[name] {
 			u.sortSeen[name] = true
